@@ -401,6 +401,7 @@ class Case:
         self.ltouched, self.ulen = {}, {}         # list key -> bool / length of the directly assigned list
         self.rtouched = {}                        # (list key, i, fname) -> last directly assigned value
         self.grown = set()                        # lists the library has grown in this session
+        self.f2_extended = set()                  # user-assigned lists the library has extended in place
         self.shape_edit = False
         self.roles = {}                           # key -> role string (coverage)
         self.nsaves = 0
@@ -759,7 +760,9 @@ class Case:
                 want = self.ulen[lkey]
                 if n != want:
                     sig = {"clause": "user_value_saved", "field_kind": "object-list"}
-                    if n is not None and n > want and nm > want:
+                    if n is not None and n > want and (nm > want or lkey in self.f2_extended):
+                        # the pinned update_retriever_length extends the list object in place before the (dropped) write
+                        self.f2_extended.add(lkey)
                         sig.update(root=F2_ROOT, effect="user-list-extended-in-place")
                     self._viol(sig, f"{lkey}: the user assigned a list of {want} records, the manager holds {nm} objects, "
                                     f"the file has {n} records (setting off)")
@@ -1005,7 +1008,9 @@ def run(ctx):
         "re-loaded file (+ is_dirty). One evaluation = one (field, save) verdict of the oracle. non-trivial = the field was "
         "assigned directly or its manager value was changed in that history; distinct by (field, clause, setting, role string)")
     env = Env()
+    cwd = os.getcwd()
     try:
+        os.chdir(env.tmp)        # the library drops an `error_file.txt` into the working directory when a load fails
         env.build_base()
         fixed = probe_fixed(env)
         R.extra["update_retriever_length_variant"] = "repaired (grow through internal write)" if fixed else "pinned (grow through the user setter: F2)"
@@ -1113,6 +1118,7 @@ def run(ctx):
         for sk, v in seen_sigs.items():
             R.violation(v["signature"], f"{v['what']}  [{v['count']} occurrence(s)]", v["replay"])
     finally:
+        os.chdir(cwd)
         env.settings.ALLOW_DIRTY_RETRIEVER_OVERWRITE = False
         env.close()
     return R.to_json(exhaustive=False)
